@@ -184,6 +184,8 @@ inductive Err where
   | incompleteBody
   | unexpectedContent
   | invalidPart
+  | malformedXML
+  | invalidPartOrder
   | noSuchUpload
   | panic
   deriving DecidableEq, Repr
@@ -198,6 +200,8 @@ def Err.name : Err → String
   | .incompleteBody => "IncompleteBody"
   | .unexpectedContent => "UnexpectedContent"
   | .invalidPart => "InvalidPart"
+  | .malformedXML => "MalformedXML"
+  | .invalidPartOrder => "InvalidPartOrder"
   | .noSuchUpload => "NoSuchUpload"
   | .panic => "PANIC"
 
@@ -415,16 +419,21 @@ def deleteObjectsPlan (e : Env) (b : Bytes) : List Bytes → List Bytes → Plan
   | k :: rest, paths =>
     withPath (getObjectPath e b k) [] fun p => deleteObjectsPlan e b rest (paths ++ [p])
 
-/-- the validation loop of `complete_multipart_upload` (0096ef4: before anything is changed): part numbers `1, 2, 3, …`
-    ("invalid part order" otherwise), every part file is probed; the touches so far and the part paths, or the plan that
-    ended there -/
-def completeCheck (e : Env) (u : Bytes) : List Int → Int → List Touch → List Bytes → Except Plan (List Touch × List Bytes)
-  | [], _, acc, pps => .ok (acc, pps)
-  | n :: rest, cnt, acc, pps =>
-    if n ≠ cnt + 1 then .error (.fail acc .invalidRequest)            -- "invalid part order"
-    else match uploadPartPath e u n with
-      | .error x => .error (.fail acc x)
-      | .ok pp => completeCheck e u rest (cnt + 1) (acc ++ [rd pp]) (pps ++ [pp])
+/-- `numbers.windows(2).any(|w| w[0] >= w[1])`: the listed part numbers are not strictly ascending (fa59617: they need not
+    be consecutive) -/
+def outOfOrder : List Int → Bool
+  | a :: b :: t => decide (a ≥ b) || outOfOrder (b :: t)
+  | _ => false
+
+/-- the probing pass of `complete_multipart_upload` (0096ef4: before anything is changed; a00e4e8: after the part list itself
+    has been validated): every listed part file is probed; the touches so far and the part paths, or the plan that ended
+    there -/
+def completeCheck (e : Env) (u : Bytes) : List Int → List Touch → List Bytes → Except Plan (List Touch × List Bytes)
+  | [], acc, pps => .ok (acc, pps)
+  | n :: rest, acc, pps =>
+    match uploadPartPath e u n with
+    | .error x => .error (.fail acc x)
+    | .ok pp => completeCheck e u rest (acc ++ [rd pp]) (pps ++ [pp])
 
 def plan (e : Env) (enc : Bytes → Bytes) : Op → Plan
   | .createBucket b =>
@@ -530,15 +539,19 @@ def plan (e : Env) (enc : Bytes → Bytes) : Op → Plan
       withPath (uploadInfoPath e u) [] fun info =>
       .ok [rd info, ⟨.list, .path e.root⟩, ⟨.read, .childrenPrefixed e.root (uploadPartPrefix u)⟩]
   | .completeMultipartUpload b k uploadId parts counter =>
+    -- a00e4e8: a request without a part list, or with an empty one, is refused before anything is looked at
     match parts with
-    | none => .fail [] .invalidPart
+    | none => .fail [] .malformedXML
     | some parts =>
+      if parts.isEmpty then .fail [] .malformedXML else
       match parseUuid uploadId with
       | none => .fail [] .noSuchUpload           -- 4609ab3: an id that is no UUID names no upload
       | some u =>
         verifyUpload e u [] fun t1 =>
         withPath (getObjectPath e b k) t1 fun p =>
-        match completeCheck e u parts 0 t1 [] with
+        -- a00e4e8: the order of the numbers is checked before any part file is probed
+        if outOfOrder parts then .fail t1 .invalidPartOrder else
+        match completeCheck e u parts t1 [] with
         | .error pl => pl
         | .ok (t2, pps) =>
           -- the content is assembled in the temporary file from the part files and renamed into place (an error drops the
